@@ -228,7 +228,7 @@ Print Assumptions C18_getbody_error_is_seen.
 
 Theorem C18_unmarshal_error_is_seen : forall fl cfg a s chk b w x,
   a_getbody a = None -> a_transport a = TResp s chk b -> Forall is_user (a_cli a) ->
-  b_read b = None ->
+  b_read b = None -> b_tf b = None ->
   applicable (c_targets cfg) (mkResp true s chk None false false ENone) = Some w -> um_of b w = Some x ->
   exists r l, round_trip fl cfg a = (Some r, r_err r, l) /\ r_err r = last_wins (Some x) (a_cli a) /\
               r_result r = false /\ r_error r = ENone.
@@ -287,13 +287,13 @@ Proof. exact do_pinned_nil_deref. Qed.
 (* non-vacuity: concrete non-trivial programs *)
 Example C18_nonvacuous :
   (* 200 + JSON + success target: bound; error hook silent *)
-  run Fixed (mkProg ESend (mkCfg (mkTargets true true true) true true None None)
-    [mkAttempt [None; None] None [WPass] None (TResp 200 None (mkBody None None None None)) [Mw None None] [Mw None None] false])
+  run Fixed (mkProg ESend (mkCfg (mkTargets true true true) true true None None false)
+    [mkAttempt [None; None] None [WPass] None (TResp 200 None (mkBody None None None None None)) [Mw None None] [Mw None None] false])
   = Returned (Some (mkResp true 200 None None true true ENone)) None
       [[EvUd 0; EvUd 1; EvWIn 0; EvSend; EvCli 0; EvWOut 0; EvReq 0]] 0 /\
   (* 500 + ill-formed body + request-level error target: unmarshal error surfaces, hook runs once *)
-  run Fixed (mkProg ESend (mkCfg (mkTargets true true true) true true None None)
-    [mkAttempt [] None [] None (TResp 500 None (mkBody None None (Some (-1)) None)) [] [] false])
+  run Fixed (mkProg ESend (mkCfg (mkTargets true true true) true true None None false)
+    [mkAttempt [] None [] None (TResp 500 None (mkBody None None None (Some (-1)) None)) [] [] false])
   = Returned (Some (mkResp true 500 None (Some (-1)) true false ENone)) (Some (-1)) [[EvSend]] 1 /\
   (* a wrapper returning (nil, err) under retry: the repaired loop retries and reports the error *)
   run Fixed (mkProg ESend retry_cfg [nil_wrapper_attempt; nil_wrapper_attempt]) =
